@@ -210,6 +210,13 @@ func (c *Conn) readLoop(ctx context.Context) (header, error) {
 			return header{}, errors.New("received unmasked frame from client")
 		}
 
+		if c.client && h.masked {
+			// See https://tools.ietf.org/html/rfc6455#section-5.1
+			err := errors.New("received masked frame from server")
+			c.writeError(StatusProtocolError, err)
+			return header{}, err
+		}
+
 		switch h.opcode {
 		case opClose, opPing, opPong:
 			err = c.handleControl(ctx, h)
